@@ -756,6 +756,16 @@ func syncFacts(k *kvs, c *netCtx, s *stateAt) {
 	k.setU("nvals", nVals(s))
 }
 
+// syncInCharge: (committee in charge at slot, the other one) by the spec's rule: the next committee signs at the
+// last slot of a sync committee period. Written independently of gossipval.
+func (c *netCtx) syncInCharge(s *stateAt, slot uint64) (inCharge, other []common.ValidatorIndex) {
+	spe, epp := uint64(c.spec.SLOTS_PER_EPOCH), uint64(c.spec.EPOCHS_PER_SYNC_COMMITTEE_PERIOD)
+	if (slot/spe)/epp == ((slot+1)/spe)/epp {
+		return s.epc.CurrentSyncCommittee.Indices, s.epc.NextSyncCommittee.Indices
+	}
+	return s.epc.NextSyncCommittee.Indices, s.epc.CurrentSyncCommittee.Indices
+}
+
 func syncState(c *netCtx, slot uint64) *stateAt {
 	ep := slot / uint64(c.spec.SLOTS_PER_EPOCH)
 	if ep < altairEpoch {
@@ -803,7 +813,7 @@ func syncMsgPrepare(k *kvs, derive bool) func() string {
 //
 // desc:   cfg slot subidx aggregator bits broot selk osigk csigk
 // script: min max bknown epc seen dom
-// facts:  spe epp size ones selproof cur next nvals selsig osig csig csigcur
+// facts:  spe epp size ones selproof cur next nvals selsig osig csigcur csignext
 
 func contribPrepare(k *kvs, derive bool) func() string {
 	c := mustCtx(k)
@@ -820,31 +830,30 @@ func contribPrepare(k *kvs, derive bool) func() string {
 		}
 		bv[b/8] |= 1 << (b % 8)
 	}
-	// participants: members of the subcommittee the code/spec would read. The honest sender signs with the
-	// members of the CURRENT committee's subcommittee (kind "ok"); "next" uses the next committee.
+	// participants: the honest sender signs with the members of the subcommittee of the committee in charge at
+	// this slot (kind "ok"); "other" uses the other committee (current <-> next).
 	sub := func(indices []common.ValidatorIndex) []uint64 {
 		if subidx >= common.SYNC_COMMITTEE_SUBNET_COUNT {
 			return nil
 		}
 		return idxArgs(indices[subidx*subSize : (subidx+1)*subSize])
 	}
-	members := sub(s.epc.CurrentSyncCommittee.Indices)
+	inCharge, other := c.syncInCharge(s, slot)
+	members := sub(inCharge)
 	csigk := k.s("csigk")
-	if csigk == "next" {
-		members = sub(s.epc.NextSyncCommittee.Indices)
+	if csigk == "other" {
+		members = sub(other)
 	}
 	var signers []int
-	var parts []uint64
 	for _, b := range bits {
 		if int(b) < len(members) {
 			signers = append(signers, c.signerKey(members[b]))
-			parts = append(parts, members[b])
 		}
 	}
 	sr := oracleSigningRoot(root, c.oracleGetDomain(s.epoch, common.DOMAIN_SYNC_COMMITTEE, s.epoch))
 	var csig common.BLSSignature
 	switch csigk {
-	case "ok", "next":
+	case "ok", "other":
 		csig = c.aggSign(signers, sr[:])
 	case "wrongkey":
 		sg := append([]int{}, signers...)
@@ -890,27 +899,18 @@ func contribPrepare(k *kvs, derive bool) func() string {
 		k.setB("selsig", inReg && c.oracleVerify(int(aggregator), selRoot[:], selProof))
 		oRoot := oracleSigningRoot(msgRoot, c.oracleGetDomain(s.epoch, common.DOMAIN_CONTRIBUTION_AND_PROOF, s.epoch))
 		k.setB("osig", inReg && c.oracleVerify(int(aggregator), oRoot[:], outer))
-		// the spec verifies against the subcommittee of the committee in charge of slot+1
-		spe, epp := uint64(c.spec.SLOTS_PER_EPOCH), uint64(c.spec.EPOCHS_PER_SYNC_COMMITTEE_PERIOD)
-		specMembers := sub(s.epc.CurrentSyncCommittee.Indices)
-		if (slot/spe)/epp != ((slot+1)/spe)/epp {
-			specMembers = sub(s.epc.NextSyncCommittee.Indices)
-		}
-		var ps []int
-		for _, b := range bits {
-			if int(b) < len(specMembers) {
-				ps = append(ps, int(specMembers[b]))
+		verifyWith := func(indices []common.ValidatorIndex) bool {
+			var ps []int
+			m := sub(indices)
+			for _, b := range bits {
+				if int(b) < len(m) {
+					ps = append(ps, int(m[b]))
+				}
 			}
+			return c.oracleFastAggVerify(ps, sr[:], csig)
 		}
-		k.setB("csig", c.oracleFastAggVerify(ps, sr[:], csig))
-		var pc []int
-		for _, b := range bits {
-			if cur := sub(s.epc.CurrentSyncCommittee.Indices); int(b) < len(cur) {
-				pc = append(pc, int(cur[b]))
-			}
-		}
-		k.setB("csigcur", c.oracleFastAggVerify(pc, sr[:], csig))
-		_ = parts
+		k.setB("csigcur", verifyWith(s.epc.CurrentSyncCommittee.Indices))
+		k.setB("csignext", verifyWith(s.epc.NextSyncCommittee.Indices))
 	}
 	be := newBackend(c)
 	scriptSync(k, be, s, root, slot)
